@@ -13,3 +13,8 @@ CLAIMED.update({
    text="Whole property at the type level: MatcherBuilder is Send+Sync+Freeze (rustc queries), the per-parse Matcher owns its cache, lalrpop-util has no shared mutable items and no unsafe, and no template can emit shared mutable state; so concurrent parse(&self) calls share only immutable data and cannot interfere.",
    note="trusted: rustc's Send/Sync/Freeze reasoning and aliasing rules; regex-automata DFA immutability; user action code out of scope"),
 })
+CLAIMED.update({
+ "C08": dict(level="other", design="§2 C08", technique="static analysis: path rule over the MIR CFG of Matcher::next (progress test on the consumed length guards every token return and loop back edge) and dominance rule in Parser::parse (pull only after shift)",
+   text="Decides only the lexer-progress and pull-discipline clauses (necessary conditions of termination): every returned token / skip-loop iteration consumed >= 1 byte, text advances by that length, one pull per shift. Does NOT decide bounded reductions, recovery termination or panic freedom (table invariants).",
+   note="trusted: rustc MIR; regex-automata stepping terminates"),
+})
